@@ -128,7 +128,7 @@ def board_corruptions():
         ("SAN reader result altered", "san", lambda e: len(e["mv"]) > 0, uci_back, "C20"),
         ("SAN reader: an error turned into a move", "sanread", lambda e: any(q["k"] == "err" for q in e["q"]), sanread, "C20"),
         ("rebuild reported unequal", "rebuild", lambda e: e["k"] == "ok", rebuild, "C09"),
-        ("occupied() accessor lost a square", "acc", lambda e: len(e["occ"]) > 0, acc, "EXT"),
+        ("occupied() accessor lost a square", "acc", lambda e: len(e["occ"]) > 0, acc, "C02"),
     ]
 
 
